@@ -26,7 +26,7 @@ from analysis.report import load_table
 
 EDITOR_SIDE = {"selection_opt", "selection_mask", "tool_overlay_mask", "current_layer", "caret", "is_palette_dirty", "is_buffer_dirty",
                "undo_stack", "redo_stack", "outline_style", "mirror_mode", "unicode_converter"}
-BOOKKEEPING = {"is_font_table_dirty", "is_terminal_buffer", "overlay_layer", "sixel_threads"}
+BOOKKEEPING = {"is_font_table_dirty", "is_terminal_buffer", "overlay_layer", "overlay_layer_index", "sixel_threads"}
 TRAIT = "UndoOperation"
 
 
@@ -131,7 +131,7 @@ def run(chk):
     f = F.load()
     g = CallGraph(f)
     eff = Effects(f, g)
-    chk.rules = ["R-UNDO-SYM", "R-UNDO-SELF", "R-UNDO-ORDER", "R-UNDO-GUARD", "R-PUSH"]
+    chk.rules = ["R-UNDO-SYM", "R-UNDO-SELF", "R-UNDO-ORDER", "R-UNDO-GUARD", "R-EDIT-LOGGED", "R-PUSH"]
     chk.assumptions = ["write sets are may-sets over access paths (field names; indices dropped): equality of the sets is a necessary condition of restorability, not a proof of it",
                        "editor-side state (selection, masks, current layer, caret, dirty flags) is outside the property's list of what must be restored"]
     reviewed = {}
@@ -189,6 +189,7 @@ def run(chk):
     chk.floor("R-UNDO-SYM", "document write paths compared", nwrites, 60)
     undo_order(chk, f, impls)
     undo_guard(chk, f, g, eff, impls)
+    edit_logged(chk, f, g, eff, reviewed)
     # ------------------------------------------------------------------ R-PUSH
     es = "editor::EditState"
 
@@ -364,3 +365,144 @@ def undo_guard(chk, f, g, eff, impls):
                             what="%s::%s goes through Layer::%s, which does nothing depending on properties.%s, and %s::%s has no such dependence: on such a layer the two directions are not inverse" % (
                                 short, side, "/".join(via), fl, short, "redo" if side == "undo" else "undo"))
     chk.floor("R-UNDO-GUARD", "operations compared", n, 40)
+
+
+# ===================================================================================================== R-EDIT-LOGGED
+LOG_CALLS = ("EditState::push_plain_undo", "EditState::push_undo_action")
+ES = "editor::EditState"
+# layer fields that are transient editor state, not part of the document the property lists
+TRANSIENT = {"preview_offset"}
+
+
+def _write_sites(b, eff, T):
+    """[(block, 'stmt'|'call', line, param, path, callee path)] - the places of body b that (may) write through a reference
+    parameter: own stores and calls handing a `&mut` derived from a parameter to something that writes through it"""
+    from analysis.effects import PURE_STD
+    from analysis.interproc import is_mut_ref
+    out = []
+    for bi, k, s in b.stmts():
+        if s["k"] not in ("assign", "setdiscr"):
+            continue
+        pj = s["p"]
+        if "*" not in pj.get("p", []):
+            continue
+        pp = eff._place_path(b, pj)
+        if pp is None:
+            continue
+        out.append((bi, "stmt", s.get("line"), pp[0], pp[1], None))
+    for bi, t in b.calls():
+        c = t["callee"]
+        path = c.get("resolved") or c.get("path") or ""
+        nm = path.split("::")[-1]
+        cands = [x for x in eff.ip.callee_ids(b, t) if x in eff.W]
+        for ai, a in enumerate(t["args"]):
+            pj = a.get("copy") or a.get("move")
+            if pj is None:
+                continue
+            aty = eff.ip.an_place_type(b, pj)
+            if aty is None or not is_mut_ref(T[aty]):
+                continue
+            rp = eff._ref_path(b, a)
+            if rp is None:
+                continue
+            if cands:
+                for cid in cands:
+                    for p in eff.W[cid].get(ai + 1, ()):
+                        out.append((bi, "call", t["line"], rp[0], (rp[1] + p)[:6], path))
+            elif nm not in PURE_STD:
+                out.append((bi, "call", t["line"], rp[0], rp[1], path))
+    return out
+
+
+def edit_logged(chk, f, g, eff, reviewed):
+    """R-EDIT-LOGGED: in every public method of EditState, a place that changes the document directly (a store, a std mutator, a
+    mutator of Buffer / Layer or a non-public helper applied to something reached from `self` - not a call of another public
+    EditState method, which is checked on its own, and not the replay of an UndoOperation) is followed, on every path to a return
+    that does not come from a `?` / an explicit `Err(..)`, by a *recording call*: push_plain_undo, push_undo_action, or an
+    EditState method that itself reaches one of them on every such path.  An edit that reports success and is not recorded cannot
+    be undone."""
+    T = f.types
+    es_ids = {bid for bid, b in f.bodies.items() if b.impl_self_s == ES and b.kind == "method"}
+    info = {}
+    for bid in es_ids:
+        b = f.bodies[bid]
+        errs, rets, calls = set(), set(), {}
+        for bi, blk in enumerate(b.blocks):
+            t = blk["term"]
+            if t["k"] == "call":
+                p = t["callee"].get("resolved") or t["callee"].get("path") or ""
+                if p.endswith("::from_residual"):
+                    errs.add(bi)
+                calls[bi] = (p, set(eff.ip.callee_ids(b, t)))
+            elif t["k"] == "return":
+                rets.add(bi)
+            for s in blk["stmts"]:
+                if s["k"] == "assign" and s["p"]["l"] == 0 and not s["p"].get("p") and s["rv"]["k"] == "agg" and s["rv"].get("variant") == "Err":
+                    errs.add(bi)
+        info[bid] = (errs, rets, calls)
+    # recording methods: least fix-point from the two primitives
+    must_log = {bid for bid in es_ids if f.bodies[bid].name in ("push_plain_undo", "push_undo_action") and not f.bodies[bid].impl_trait}
+    chk.anchor(len(must_log) == 2, "R-EDIT-LOGGED", "anchors: EditState::push_plain_undo and EditState::push_undo_action (%d)" % len(must_log))
+
+    def log_blocks(bid):
+        return {bi for bi, (p, cids) in info[bid][2].items() if cids and cids <= must_log}
+    changed = True
+    while changed:
+        changed = False
+        for bid in sorted(es_ids - must_log):
+            b = f.bodies[bid]
+            errs, rets, _ = info[bid]
+            lb = log_blocks(bid)
+            if not lb:
+                continue
+            if not (b.reachable_from(0, avoid=lb | errs) & rets):
+                must_log.add(bid)
+                changed = True
+    nmeth = nsites = nlog = 0
+    for bid in sorted(es_ids):
+        b = f.bodies[bid]
+        if b.impl_trait or b.name in ("push_plain_undo", "push_undo_action") or b.vis != "pub":
+            continue
+        if b.argc < 1 or not b.tys(1).startswith("&mut "):
+            continue
+        errs, rets, calls = info[bid]
+        logs = log_blocks(bid)
+        nlog += len(logs)
+        seen = set()
+        direct = []
+        for bi, kind, line, par, path, callee in _write_sites(b, eff, T):
+            if par != 1 or not doc_paths({path}) or any(x in TRANSIENT for x in path):
+                continue
+            if callee is not None:
+                if bi in logs or callee.endswith((TRAIT + "::undo", TRAIT + "::redo")):
+                    continue
+                cids = calls.get(bi, ("", set()))[1]
+                if cids and all(x in es_ids and f.bodies[x].vis == "pub" and not f.bodies[x].impl_trait for x in cids):
+                    continue        # another public EditState method: checked where it stands
+            if (bi, callee) in seen:
+                continue
+            seen.add((bi, callee))
+            direct.append((bi, kind, line, path, callee))
+        if not direct:
+            continue
+        nmeth += 1
+        for bi, kind, line, path, callee in direct:
+            nsites += 1
+            if kind == "stmt" and bi in logs:
+                chk.obligation(True)
+                continue
+            starts = b.succ[bi] if kind == "call" else [bi]
+            reach = set()
+            for s0 in starts:
+                reach |= b.reachable_from(s0, avoid=logs | errs)
+            ok = not (reach & rets)
+            chk.obligation(ok)
+            if not ok:
+                op = (callee or "store").split("::")[-1]
+                chk.finding("%s|unlogged|%s" % (b.name, op), rule="R-EDIT-LOGGED", where="%s:%s" % (b.file, line), fn="EditState::%s" % b.name,
+                            what="EditState::%s changes the document directly (%s on self.%s) and can then return without an error and without push_plain_undo / "
+                                 "push_undo_action: the edit reports success but is not in the undo history" % (b.name, op, ".".join(path)))
+    chk.cov["recording_methods"] = sorted(f.bodies[x].name for x in must_log)
+    chk.floor("R-EDIT-LOGGED", "EditState methods that edit the document directly", nmeth, 10)
+    chk.floor("R-EDIT-LOGGED", "direct edit sites", nsites, 25)
+    chk.floor("R-EDIT-LOGGED", "recording calls in those methods", nlog, 10)
